@@ -3,8 +3,10 @@
 d=$1; shift
 cd /repo && git apply "$d/patch.diff" || exit 3
 cd /verif
+rm -rf /tmp/evidence_keep && cp -r evidence /tmp/evidence_keep
 for p in "$@"; do
   ./check $p > /tmp/seedtest_$p.log 2>&1; rc=$?
   echo "== $p rc=$rc"; grep -E "VIOLATION|BROKEN|KNOWN|INFRA" /tmp/seedtest_$p.log | cut -c1-300 | head -8
 done
+cd /verif && rm -rf evidence && mv /tmp/evidence_keep evidence
 cd /repo && git checkout -- . && git status --short | head -3
